@@ -388,7 +388,30 @@ func catalogueCut(log []centry, cut int, used bool) (string, string) {
 		// what the used node held beyond the snapshot must be gone; compare as is
 	}
 	if la != lc {
-		return "snapshot-plus-suffix-differs-from-replay:" + role, fmt.Sprintf("log %v, snapshot cut at %d, %s restoring node: replay gives {%s}, snapshot+suffix gives {%s}", log, cut, role, la, lc)
+		// what kind of difference: a dataset missing on the restoring node, one it already had and did not refresh,
+		// or one it kept although the snapshot does not contain it (most severe first)
+		kind := ""
+		if used {
+			byID := func(l string) map[string]string {
+				m := map[string]string{}
+				for _, d := range strings.Split(l, " ; ") {
+					if d != "" {
+						m[strings.Fields(d)[0]] = d
+					}
+				}
+				return m
+			}
+			ma, mc := byID(la), byID(lc)
+			kind = ":keeps-datasets-the-snapshot-lacks"
+			for id, d := range ma {
+				if other, has := mc[id]; has && other != d && kind != ":lacks-datasets" {
+					kind = ":does-not-refresh-datasets-it-already-has"
+				} else if !has {
+					kind = ":lacks-datasets"
+				}
+			}
+		}
+		return "snapshot-plus-suffix-differs-from-replay:" + role + kind, fmt.Sprintf("log %v, snapshot cut at %d, %s restoring node: replay gives {%s}, snapshot+suffix gives {%s}", log, cut, role, la, lc)
 	}
 	if !used {
 		if k, d := w.againstModel(c, "snapshot+suffix", log, lc); k != "" {
